@@ -25,6 +25,9 @@ Definition go_max (cs : Z) (p : sym_params) : Z :=
 
 Definition u32 (x : Z) : Prop := 0 <= x < 4294967296.
 
+(* a negotiated limit: 0 means "no limit" *)
+Definition within (limit x : Z) : Prop := limit = 0 \/ x <= limit.
+
 (* every policy the code registers satisfies the side conditions *)
 Theorem C07_params : forallb p_ok7 sym_policies = true.
 Proof. vm_compute. reflexivity. Qed.
@@ -45,61 +48,64 @@ Proof.
 Qed.
 
 (* REASSEMBLY.  Every registered policy, every mode, every chunk size >= 8192 (uint32), any two algorithms of
-   the policy's sizes linked as sender/receiver, every body within the receiver's limits, every reachable
-   counter value: SendMsg writes chunks from which the peer's Receive delivers exactly the body; and the
-   counter left behind again satisfies the precondition (so this holds for every message of a channel's life). *)
+   the policy's sizes linked as sender/receiver, every body within the limits negotiated in HEL/ACK
+   (the sender checks the peer's limits before writing, the receiver its own; 0 = no limit), every reachable
+   counter value: SendMsg writes chunks from which the peer's Receive delivers exactly the body; the counter
+   left behind is again a uint32 (so this holds for every message of a channel's life). *)
 Theorem C07_reassemble :
   forall p S R m pnone cs chan tok req s0 body maxchunks maxmsg t,
   In p sym_policies -> has_sizes S p -> link S R ->
   8192 <= cs < 4294967296 -> u32 chan -> u32 req ->
-  0 <= s0 < 4294967295 ->
-  zlen body < 4294967295 -> zlen body <= maxmsg -> maxmsg < 4294967296 ->
-  zlen body / go_max cs p <= maxchunks -> maxchunks < 4294967296 ->
+  u32 s0 ->
+  zlen body < 4294967295 -> within maxmsg (zlen body) -> u32 maxmsg ->
+  within maxchunks (zlen body / go_max cs p + 1) -> u32 maxchunks ->
   tbl_get t req = [] ->
   exists ws sn,
-    send_message m S MSG chan tok req (go_max cs p) s0 body = Ok (ws, sn) /\
+    send_message m S MSG chan tok req (go_max cs p) s0 maxchunks maxmsg body = Ok (ws, sn) /\
     receive_all (mkRcfg m pnone R chan maxchunks maxmsg) t ws = [Deliver req chan body] /\
-    0 <= sn < 4294967295.
+    u32 sn.
 Proof.
   intros p S R m pnone cs chan tok req s0 body maxchunks maxmsg t Hin (Hb & Hpl & Hsg & Hrs) L Hcs Hch Hrq Hs0 Hbl Hbm Hmm Hcnt Hmc Ht.
   destruct (go_max_facts p cs Hin Hcs) as (Hmax & Hrange & Hp).
   pose proof (params_ok_spec _ _ _ _ Hp) as (Hp1 & Hp2 & Hp3 & Hp4 & Hp5).
-  destruct (send_receive S R m pnone chan tok req (go_max cs p) s0 body maxchunks maxmsg t L
-              ltac:(rewrite Hpl; lia) ltac:(rewrite Hsg; lia) Hch Hrq ltac:(lia) Hs0 Hbl Hbm Hmm Hcnt Hmc Ht)
+  assert (Hcnt' : maxchunks = 0 \/ zlen body / go_max cs p <= maxchunks) by (destruct Hcnt; [left; assumption | right; lia]).
+  destruct (send_receive S R m pnone chan tok req (go_max cs p) s0 maxchunks maxmsg body maxchunks maxmsg t L
+              ltac:(rewrite Hpl; lia) ltac:(rewrite Hsg; lia) Hch Hrq ltac:(lia) Hs0 Hbl Hmc ltac:(destruct Hmm; lia) Hcnt Hbm Hbm Hmm Hcnt' Hmc Ht)
     as (ws & sn & Hsend & Hrecv & Hall).
   exists ws, sn. split; [exact Hsend|]. split; [exact Hrecv|].
   (* the final counter *)
   unfold send_message in Hsend. rewrite encode_chunks_ok in Hsend by (try assumption; lia).
+  destruct (check_peer_limits maxchunks maxmsg _) in Hsend; [discriminate|].
   pose proof (next_range s0 Hs0) as Hs1.
   destruct (send_loop_ok S R L ltac:(rewrite Hpl; lia) ltac:(rewrite Hsg; lia) m pnone chan tok req Hch Hrq
               (items (go_max cs p) body) true (go_nextSequenceNumber s0) (go_nextSequenceNumber s0))
     as (ws' & Hsend' & _); [intros _; split; [reflexivity | lia] | discriminate |].
   rewrite Hsend' in Hsend. injection Hsend as _ <-.
-  pose proof (numbered_final (items (go_max cs p) body) true (go_nextSequenceNumber s0) ltac:(lia)). lia.
+  pose proof (numbered_final (items (go_max cs p) body) true (go_nextSequenceNumber s0) ltac:(lia)). unfold u32. lia.
 Qed.
 
 (* SIZES AND FLAGS.  Every chunk written fits the chunk size, its MessageSize field equals its length,
    all chunks but the last are intermediate ('C'), the last is final ('F'); there are len/max + 1 chunks
    (so a body that is an exact multiple of the maximum ends with an empty final chunk). *)
 Theorem C07_sizes :
-  forall p S R m cs chan tok req s0 body maxchunks maxmsg t ws sn,
+  forall p S R m cs chan tok req s0 body maxchunks maxmsg ws sn,
   In p sym_policies -> has_sizes S p -> link S R ->
   8192 <= cs < 4294967296 -> u32 chan -> u32 req ->
-  0 <= s0 < 4294967295 ->
-  zlen body < 4294967295 -> zlen body <= maxmsg -> maxmsg < 4294967296 ->
-  zlen body / go_max cs p <= maxchunks -> maxchunks < 4294967296 ->
-  tbl_get t req = [] ->
-  send_message m S MSG chan tok req (go_max cs p) s0 body = Ok (ws, sn) ->
+  u32 s0 ->
+  zlen body < 4294967295 -> within maxmsg (zlen body) -> u32 maxmsg ->
+  within maxchunks (zlen body / go_max cs p + 1) -> u32 maxchunks ->
+  send_message m S MSG chan tok req (go_max cs p) s0 maxchunks maxmsg body = Ok (ws, sn) ->
   exists cws fw, ws = cws ++ [fw] /\
     zlen cws = zlen body / go_max cs p /\
     Forall (fun w => zlen w <= cs /\ de32 (zdrop 4 w) = zlen w /\ znth 3 w = "C"%byte) cws /\
     zlen fw <= cs /\ de32 (zdrop 4 fw) = zlen fw /\ znth 3 fw = "F"%byte.
 Proof.
-  intros p S R m cs chan tok req s0 body maxchunks maxmsg t ws sn Hin (Hb & Hpl & Hsg & Hrs) L Hcs Hch Hrq Hs0 Hbl Hbm Hmm Hcnt Hmc Ht Hsend.
+  intros p S R m cs chan tok req s0 body maxchunks maxmsg ws sn Hin (Hb & Hpl & Hsg & Hrs) L Hcs Hch Hrq Hs0 Hbl Hbm Hmm Hcnt Hmc Hsend.
   destruct (go_max_facts p cs Hin Hcs) as (Hmax & Hrange & Hp).
   pose proof (params_ok_spec _ _ _ _ Hp) as (Hp1 & Hp2 & Hp3 & Hp4 & Hp5).
-  destruct (send_receive S R m false chan tok req (go_max cs p) s0 body maxchunks maxmsg t L
-              ltac:(rewrite Hpl; lia) ltac:(rewrite Hsg; lia) Hch Hrq ltac:(lia) Hs0 Hbl Hbm Hmm Hcnt Hmc Ht)
+  assert (Hcnt' : maxchunks = 0 \/ zlen body / go_max cs p <= maxchunks) by (destruct Hcnt; [left; assumption | right; lia]).
+  destruct (send_receive S R m false chan tok req (go_max cs p) s0 maxchunks maxmsg body maxchunks maxmsg [] L
+              ltac:(rewrite Hpl; lia) ltac:(rewrite Hsg; lia) Hch Hrq ltac:(lia) Hs0 Hbl Hmc ltac:(destruct Hmm; lia) Hcnt Hbm Hbm Hmm Hcnt' Hmc eq_refl)
     as (ws' & sn' & Hsend' & _ & Hall).
   rewrite Hsend' in Hsend. injection Hsend as <- <-.
   destruct (send_shapes S R m false chan req (go_max cs p) _ body ws' ltac:(lia) Hall)
@@ -125,22 +131,21 @@ Example C07_link_satisfiable :
 Proof. split; [apply toy_sym_link; lia | repeat split]. Qed.
 
 Example C07_nonvacuous :
-  match send_message ModeSignEnc (toy_sym_algo 16 32 7 9) MSG 7 9 11 (go_max 8192 sym_Basic256Sha256) 5 (gen_body 20000 1 3) with
+  match send_message ModeSignEnc (toy_sym_algo 16 32 7 9) MSG 7 9 11 (go_max 8192 sym_Basic256Sha256) 5 512 2097152 (gen_body 20000 1 3) with
   | Ok (ws, sn) => map zlen ws = [8192; 8192; 3792] /\ sn = 8 /\
       receive_all (mkRcfg ModeSignEnc false (toy_sym_algo 16 32 9 7) 7 512 2097152) [] ws = [Deliver 11 7 (gen_body 20000 1 3)]
   | _ => False
   end.
 Proof. vm_compute. repeat split. Qed.
 
-(* Why the counter precondition is there: mergeChunks seeds its duplicate filter with 0, so a first chunk
-   numbered 0 (counter 2^32-1 before the message) is dropped.  That defect is C12's (DESIGN section 7 row 14);
-   the counter never reaches 2^32-1 from any start value below it (third conjunct of C07_reassemble). *)
-Example C07_counter_precondition_is_needed :
-  match send_message ModeNone (toy_sym_algo 1 0 0 0) MSG 7 9 11 4 4294967295 (gen_body 6 1 1) with
-  | Ok (ws, _) => receive_all (mkRcfg ModeNone true (toy_sym_algo 1 0 0 0) 7 512 2097152) [] ws = [Deliver 11 7 (gen_body 2 5 1)]
+(* also at the counter value 2^32-1, after which the first chunk is numbered 0 (mergeChunks' duplicate filter
+   used to drop such a chunk; repaired by the C12 fix, which this model follows) *)
+Example C07_first_chunk_numbered_zero :
+  match send_message ModeNone (toy_sym_algo 1 0 0 0) MSG 7 9 11 4 4294967295 0 0 (gen_body 6 1 1) with
+  | Ok (ws, sn) => receive_all (mkRcfg ModeNone true (toy_sym_algo 1 0 0 0) 7 512 2097152) [] ws = [Deliver 11 7 (gen_body 6 1 1)] /\ sn = 1
   | _ => False
   end.
-Proof. vm_compute. reflexivity. Qed.
+Proof. vm_compute. split; reflexivity. Qed.
 
 Print Assumptions C07_params.
 Print Assumptions C07_reassemble.
